@@ -320,11 +320,25 @@ def tableAdd (key : Str) (v : Str) : List (Str × List Str) → List (Str × Lis
 def genericKey (sc : Scope) (r : Rec) : Str :=
   if sc.isClass then fGeneric sc r else sc.fScope ++ fGeneric sc r
 
-/-- The `f_function_generic` table after wrapping the records in order. -/
-def genericTable (sc : Scope) : List Rec → List (Str × List Str) → List (Str × List Str)
+/-- A member function of a class is filed in the per-class table `f_type_generic` (printed as
+    `generic :: key => ...` inside the derived type); constructors and free functions in the
+    per-module table `f_function_generic` (printed as `interface key`). -/
+def typeBound (sc : Scope) (r : Rec) : Bool := sc.isClass && !r.isCtor
+def moduleLevel (sc : Scope) (r : Rec) : Bool := !typeBound sc r
+
+/-- What the table lists: the binding name `F_name_function` for a type-bound generic,
+    the procedure name `F_name_impl` for an interface. -/
+def genericMember (sc : Scope) (r : Rec) : Str :=
+  if typeBound sc r then fFunction sc r else fImpl sc r
+
+/-- The table of the kind selected by `sel` (`typeBound sc` for the class being wrapped --
+    `begin_class` starts it empty -- or `moduleLevel sc`) after wrapping the records in order. -/
+def genericTable (sc : Scope) (sel : Rec → Bool) :
+    List Rec → List (Str × List Str) → List (Str × List Str)
   | [], t => t
   | r :: rest, t =>
-    genericTable sc rest (if r.wrap.f then tableAdd (genericKey sc r) (fImpl sc r) t else t)
+    genericTable sc sel rest
+      (if r.wrap.f && sel r then tableAdd (genericKey sc r) (genericMember sc r) t else t)
 
 def tableGet (key : Str) : List (Str × List Str) → List Str
   | [] => []
